@@ -109,7 +109,7 @@ def run(ctx, report):
     try:
         cases = []
         for k in range(n):
-            d = rng.choice(docgen.DELIM_SETS[:4])
+            d = rng.choice(docgen.DELIM_SETS[:4] + [docgen.DELIM_SETS[6]])        # incl. CR as the segment terminator
             icvn = rng.choice(['00401', '00501'])
             kind = rng.choice(['clean', 'countdefect', 'countdefect', 'faulty', 'layout'])
             if kind == 'countdefect':
